@@ -52,8 +52,12 @@ def task(W, payload):
     if payload.get("mode") == "traj":
         return traj_task(W, payload)
     r = random.Random(f"C05:{payload['seed']}:{payload['index']}")
-    prog = Gen(r, Opts(force_infection=True, max_strats=3, force_strat=True, allow_requests=False, allow_computed=False,
-                       kinds=["transition", "death", "infection", "infection", "import"])).program()
+    opts = Opts(force_infection=True, max_strats=3, force_strat=True, allow_requests=False, allow_computed=False,
+                kinds=["transition", "death", "infection", "infection", "import"])
+    if payload["index"] % 3 == 2:
+        # several stratifications that use the same stratum labels (yes / no under different names), each adjusting infectiousness
+        opts.shared_labels_bias = 0.8; opts.inf_adjust_bias = 0.95; opts.allow_age = False; opts.allow_strain = False
+    prog = Gen(r, opts).program()
     # every second program: the first mixing matrix is supplied as ONE array-valued parameter (the usual way a contact matrix is passed in);
     # the Lean model reads its entries as scalar parameters, the interpreter assembles the array
     arr = None
